@@ -58,6 +58,11 @@ class BalancedMoveRule(BaseRule):
             node.parent, EqualExpression
         ):
             return None
+        # A chained equation (a = b = c) has no single "other side" to balance against
+        if isinstance(root.left, EqualExpression) or isinstance(
+            root.right, EqualExpression
+        ):
+            return None
 
         if (
             isinstance(node.parent, MultiplyExpression)
